@@ -332,6 +332,14 @@ impl Plan {
             // IPv4-only deployment
             t6.clear();
         }
+        if has_list && rng.chance(1, 8) {
+            // a group address among the handled addresses (the responder is told to answer for it):
+            // the statements make no exception for it - replies come from the address that was asked
+            t4.push(Ipv4Addr::new(*rng.pick(&[224u8, 239]), 0, 0, rng.u8().max(1)));
+            if !t6.is_empty() && rng.chance(1, 2) {
+                t6.push(Ipv6Addr::new(0xff02, 0, 0, 0, 0, 0, 0, 0xfb));
+            }
+        }
         let f4: Vec<Ipv4Addr> = (0..3).map(|_| rand_ip4(rng, 172)).collect();
         let mut f6: Vec<Ipv6Addr> = (0..3).map(|_| rand_ip6(rng, 0x2a00)).collect();
         // near misses: same low 24 bits as a handled address (same solicited-node group)
